@@ -666,12 +666,12 @@ class C13(core.Check):
         return out
 
     def gen_cases(self, rng: random.Random, tier: str) -> List[dict]:
-        n = 28 if tier == "quick" else 440
+        n = 24 if tier == "quick" else 300
         cases = [self._gen_valid(rng, tier) for _ in range(n)]
-        cases += [self._gen_symfree(rng) for _ in range(3 if tier == "quick" else 30)]
-        cases += [self._gen_overlap(rng, tier) for _ in range(4 if tier == "quick" else 40)]
-        cases += [self._gen_degenerate(rng) for _ in range(4 if tier == "quick" else 30)]
-        for _ in range(1 if tier == "quick" else 6):
+        cases += [self._gen_symfree(rng) for _ in range(3 if tier == "quick" else 20)]
+        cases += [self._gen_overlap(rng, tier) for _ in range(4 if tier == "quick" else 30)]
+        cases += [self._gen_degenerate(rng) for _ in range(4 if tier == "quick" else 20)]
+        for _ in range(1 if tier == "quick" else 5):
             cases += self._gen_boundary(rng, tier)
         return cases
 
